@@ -173,18 +173,28 @@ plan("C12", "exploration",
      "runtime monitoring: exact sign-pattern oracle on codec paths and quantised distances + ASan/Miri on the codec",
      "DESIGN.md §3 C12, §4")
 
-MIRI_SEEDS_ENV = {"MIRIFLAGS": "-Zmiri-disable-isolation -Zmiri-deterministic-floats -Zmiri-many-seeds=0..48 -Zmiri-preemption-rate=0.2"}
+MIRI_SEEDS_ENV = {"MIRIFLAGS": "-Zmiri-disable-isolation -Zmiri-deterministic-floats -Zmiri-many-seeds=0..16 -Zmiri-preemption-rate=0.2"}
 
 plan("C13", "exploration",
      [explorer("C13"),
       worker("stress", ["ids", "C13"]),
       worker("tsan", ["explore", "C13", "--cases", "160"], build="tsan", tiers=("thorough",), env=TSAN_ENV, sanitizer="tsan", watchdog=(3600, 3600)),
       worker("tsan-stress", ["ids", "C13", "--cases", "400"], build="tsan", tiers=("thorough",), env=TSAN_ENV, sanitizer="tsan", watchdog=(3600, 3600)),
-      worker("miri", ["ids", "C13", "--small", "1"], build="miri", shards=4, tiers=("thorough",), env=MIRI_SEEDS_ENV, sanitizer="miri", watchdog=(3600, 3600))],
-     ["interleavings are sampled (native stress with seeded noise, Miri's scheduler over 48 seeds with preemption), not enumerated",
+      worker("miri", ["ids", "C13", "--small", "1"], build="miri", shards=16, tiers=("thorough",), env=MIRI_SEEDS_ENV, sanitizer="miri", watchdog=(3600, 3600))],
+     ["interleavings are sampled (native stress with seeded noise, Miri's scheduler over 16 seeds with preemption), not enumerated",
       "ThreadSanitizer only sees synchronisation it intercepts; LMDB's C code is not instrumented"],
      "parallel tree updates never collide",
      "In situ: id log of real multi-threaded builds (unique, disjoint from ids in use) + C01 walker, with seeded noise at hook points. Direct: stress of the exported id generator from 2-16 threads. Thorough: TSan on both, Miri many-seeds on the generator over every used subset of {0..4}.",
      "hook exports ConcurrentNodeIds and logs ids; scheduling noise is add-only",
      "runtime monitoring: offline exactly-once/disjointness check over the hooked id log, thread stress, TSan and Miri schedulers",
      "DESIGN.md §3 C13, §4, §5")
+
+plan("C10", "fault_enumeration",
+     [worker("native", ["faults", "C10"], watchdog=(1200, 7200))],
+     ["cancellation callbacks are monotone (once true, always true)",
+      "temp-file write failures are injected with RLIMIT_FSIZE (EFBIG), not with a full disk"],
+     "failed / cancelled builds report it and roll back",
+     "Fault enumeration over the real build: cancellation from the n-th poll for every n of a complete build (all n thorough), on states with pending insertions/deletions and forests that must grow or shrink, pools of 1 and 4 threads; LMDB map sizes from 64 KiB to 8 MiB; unusable temp dirs and failing temp-file writes; fd and temp-dir leak probes across hundreds of faulted builds per process. Oracle: right error (or Ok with a valid forest), never a panic, raw dump after abort == before, clean retry valid.",
+     "LMDB abort semantics trusted; faults injected at the callback / resource boundary",
+     "runtime monitoring under enumerated injected faults (cancel point, map size, temp dir, write limit) with dump-equality and leak probes",
+     "DESIGN.md §3 C10")
